@@ -2,7 +2,7 @@
 (***************************************************************************)
 (* Trace validation for C09: one record per text loaded by the real parser *)
 (*   [id, lines: Seq(<<tag, field...>>) (non-blank lines, fields described  *)
-(*    by the harness classifier as [path, slash, size, ts]), lenient,       *)
+(*    by the harness classifier as [path, slash, size, ts, w]), lenient,    *)
 (*    obs: [kind: entry|syntax|unsigned|internal, n: number of entries]]    *)
 (***************************************************************************)
 EXTENDS Naturals, Sequences, FiniteSets, TLC, Json, IOUtils
@@ -15,7 +15,11 @@ Fld(l, k) == l[k + 1]
 
 (* identical to EntryLine!MustReject / MustAccept (fields here are records  *)
 (* without the model-only components raw/why)                               *)
+(* a checksum name (fields 3, 5, ...) listed twice; w = index of the first field of the line holding *)
+(* the same word                                                                                     *)
+DupName(l) == \E a, b \in 3..NF(l) : a < b /\ (a - 3) % 2 = 0 /\ (b - 3) % 2 = 0 /\ Fld(l, a).w = Fld(l, b).w
 MustReject(l) ==
+    \/ Tag(l) \in FileTags /\ (NF(l) - 2) % 2 = 0 /\ DupName(l)
     \/ Tag(l) \notin KnownTags
     \/ Tag(l) = "TIMESTAMP" /\ (NF(l) # 1 \/ Fld(l, 1).ts = "bad")
     \/ Tag(l) = "IGNORE"    /\ (NF(l) # 1 \/ Fld(l, 1).path = "bad")
@@ -27,6 +31,7 @@ MustReject(l) ==
          \/ (NF(l) - 2) % 2 = 1
 
 MustAccept(l) ==
+    /\ ~(Tag(l) \in FileTags /\ DupName(l))
     /\ Tag(l) \in KnownTags
     /\ Tag(l) = "TIMESTAMP" => (NF(l) = 1 /\ Fld(l, 1).ts = "ok")
     /\ Tag(l) = "IGNORE"    => (NF(l) = 1 /\ Fld(l, 1).path = "ok")
